@@ -27,6 +27,7 @@ func init() {
 					"policies = every single rule, every ordered pair of user rules, every (user rule, group rule) pair over the full alphabet, and every 3- and 4-rule policy (2 user + 1+1 group rules) over a reduced 12-rule alphabet; " +
 					"requests = cmd{configure,show,conf} x 10 argument lists x {service first, cmd first} x {cmd=, cmd*} x {shell, ppp}. session path: 1-3 services (user and group) over name{shell,ppp,junos-exec} x " +
 					"match{none,[protocol=ip],[scope=s1],both} x set_values{[a=1],[b*2],both} x requests{service=shell cmd=, service=ppp protocol=ip, service=ppp protocol=ipx, service*shell, none, and the same with a client-supplied scope=s1 / scope=s2 attribute} x connection scope{s1,s2}. " +
+					"history plane: one authorizer instance answers every ordered pair (thorough: also every triple) of 26 requests = cmd{show, 'show ip', 'show ip route', configure, 'configure terminal'} x 5 argument lists + a session request, under every single rule and rule pair over name{show,'show ip',configure,*} x action x match{none,[ip route],[route],[.*],[terminal]}; each answer is judged on its own (same typed line, different cmd/argument split). " +
 					"Every (policy, request) pair is evaluated by the real stringy authorizer (direct handler call, recording Response) and by the independent evaluator mc/ref/authz.go. " +
 					"distinct_nontrivial = distinct (policy, request) pairs on which at least one rule/service applies",
 				Assumptions: []string{"whole-string match is stated with Go's regexp as ^(?:p)$", "where evaluation reaches an invalid pattern before a decision both FAIL and the skip-the-pattern result are accepted (the statement leaves it open)",
@@ -64,6 +65,8 @@ type c11Case struct {
 	GroupSvcs  []ref.Svc    `json:"group_services,omitempty"`
 	Args       []string     `json:"args"`
 	Scope      string       `json:"scope"`
+	// Prior are requests answered by the same authorizer instance before Args (history plane)
+	Prior [][]string `json:"prior,omitempty"`
 }
 
 func toCmds(rs []ref.Rule) []config.Command {
@@ -106,8 +109,19 @@ func c11Eval(c *Ctx, cs c11Case) {
 		c.R.Violate("factory-error", err.Error(), cs)
 		return
 	}
-	args := make(tq.Args, 0, len(cs.Args))
-	for _, a := range cs.Args {
+	// the decision is a function of the policy and the request alone: every request of a history on one authorizer
+	// instance is judged on its own
+	for i := range cs.Prior {
+		if !c11One(c, h, cs, cs.Prior[i], i) {
+			return
+		}
+	}
+	c11One(c, h, cs, cs.Args, len(cs.Prior))
+}
+
+func c11One(c *Ctx, h tq.Handler, cs c11Case, reqArgs []string, pos int) bool {
+	args := make(tq.Args, 0, len(reqArgs))
+	for _, a := range reqArgs {
 		args = append(args, tq.Arg(a))
 	}
 	body, err := tq.NewAuthorRequest(tq.SetAuthorRequestMethod(tq.AuthenMethodTacacsPlus), tq.SetAuthorRequestPrivLvl(1), tq.SetAuthorRequestType(tq.AuthenTypeASCII),
@@ -119,32 +133,39 @@ func c11Eval(c *Ctx, cs c11Case) {
 	req := tq.Request{Header: tq.Header{Version: tq.Version{MajorVersion: 0xc}, Type: tq.Authorize, SeqNo: 1, SessionID: 11}, Body: body, Context: context.Background()}
 	if p := safely(func() { h.Handle(resp, req) }); p != "" {
 		c.R.Violate("panic", "authorizer panicked: "+p, cs)
-		return
+		return false
 	}
+	held := true
 	fail := func(kind, what string) {
-		c.R.ViolateMin(kind, fmt.Sprintf("%s; policy user=%v groups=%v usvc=%v gsvc=%v request=%q scope=%s", what, cs.UserRules, cs.GroupRules, cs.UserSvcs, cs.GroupSvcs, cs.Args, cs.Scope), cs,
-			len(cs.UserRules)+len(cs.GroupRules)+len(cs.UserSvcs)+len(cs.GroupSvcs))
+		held = false
+		hist := ""
+		if len(cs.Prior) > 0 {
+			kind += "-after-history"
+			hist = fmt.Sprintf(" (request %d of the history %q on one authorizer instance)", pos+1, append(append([][]string{}, cs.Prior...), cs.Args))
+		}
+		c.R.ViolateMin(kind, fmt.Sprintf("%s; policy user=%v groups=%v usvc=%v gsvc=%v request=%q scope=%s%s", what, cs.UserRules, cs.GroupRules, cs.UserSvcs, cs.GroupSvcs, reqArgs, cs.Scope, hist), cs,
+			len(cs.UserRules)+len(cs.GroupRules)+len(cs.UserSvcs)+len(cs.GroupSvcs)+len(cs.Prior))
 	}
 	if len(resp.replies) != 1 {
 		fail("reply-count", fmt.Sprintf("authorizer replied %d times", len(resp.replies)))
-		return
+		return held
 	}
 	rep, ok := resp.replies[0].(*tq.AuthorReply)
 	if !ok {
 		fail("reply-type", fmt.Sprintf("reply is %T", resp.replies[0]))
-		return
+		return held
 	}
 	// all rules, user first then groups in order
 	rules := append([]ref.Rule{}, cs.UserRules...)
 	for _, g := range cs.GroupRules {
 		rules = append(rules, g...)
 	}
-	if isCmd, cmd, argstr := ref.CommandRequest(cs.Args); isCmd {
+	if isCmd, cmd, argstr := ref.CommandRequest(reqArgs); isCmd {
 		v := ref.EvalCommand(rules, cmd, argstr)
 		granted := rep.Status == tq.AuthorStatusPassAdd
 		if rep.Status != tq.AuthorStatusPassAdd && rep.Status != tq.AuthorStatusFail {
 			fail("cmd-status", fmt.Sprintf("command authorization answered with status %v", rep.Status))
-			return
+			return held
 		}
 		applies := false
 		for _, r := range rules {
@@ -153,7 +174,7 @@ func c11Eval(c *Ctx, cs c11Case) {
 			}
 		}
 		if applies {
-			c.R.Distinct(evid.Hash(fmt.Sprint(rules), fmt.Sprint(cs.Args)))
+			c.R.Distinct(evid.Hash(fmt.Sprint(rules), fmt.Sprint(reqArgs)))
 		}
 		if granted != v.Permit && !(v.ReachedInvalid && granted == v.AltPermit) {
 			kind := "cmd-granted-but-policy-denies"
@@ -162,31 +183,31 @@ func c11Eval(c *Ctx, cs c11Case) {
 			}
 			fail(kind, fmt.Sprintf("command %q args %q: server %v, policy says permit=%v", cmd, argstr, rep.Status, v.Permit))
 		}
-		return
+		return held
 	}
 	// session path
 	svcs := append(append([]ref.Svc{}, cs.UserSvcs...), cs.GroupSvcs...)
-	v := ref.EvalSession(svcs, cs.Args, cs.Scope)
+	v := ref.EvalSession(svcs, reqArgs, cs.Scope)
 	got := map[string]bool{}
 	for _, a := range rep.Args {
 		got[strings.TrimSpace(string(a))] = true
 	}
 	if len(v.Values) > 0 {
-		c.R.Distinct(evid.Hash(fmt.Sprint(svcs), fmt.Sprint(cs.Args), cs.Scope))
+		c.R.Distinct(evid.Hash(fmt.Sprint(svcs), fmt.Sprint(reqArgs), cs.Scope))
 	}
 	if len(v.Values) == 0 {
 		if rep.Status != tq.AuthorStatusFail || len(got) != 0 {
 			fail("sess-granted-but-nothing-satisfied", fmt.Sprintf("no service is satisfied but the server answered %v with %v", rep.Status, keys(got)))
 		}
-		return
+		return held
 	}
 	if rep.Status != tq.AuthorStatusPassAdd && rep.Status != tq.AuthorStatusPassRepl {
 		fail("sess-denied-but-satisfied", fmt.Sprintf("services are satisfied (values %v) but the server answered %v", keys(v.Values), rep.Status))
-		return
+		return held
 	}
 	if fmt.Sprint(keys(got)) != fmt.Sprint(keys(v.Values)) {
 		fail("sess-values", fmt.Sprintf("returned values %v, configured values of the satisfied services %v", keys(got), keys(v.Values)))
-		return
+		return held
 	}
 	if v.MustRepl && rep.Status != tq.AuthorStatusPassRepl {
 		fail("sess-mark", "an optional value was returned but the reply is not marked replace")
@@ -194,6 +215,7 @@ func c11Eval(c *Ctx, cs c11Case) {
 	if v.MustAdd && rep.Status != tq.AuthorStatusPassAdd {
 		fail("sess-mark", "nothing optional is involved but the reply is marked replace")
 	}
+	return held
 }
 
 func keys(m map[string]bool) []string {
@@ -320,6 +342,70 @@ func c11Run(c *Ctx) {
 					}
 				}
 			}
+		}
+	}
+	// history plane: one authorizer instance answers a sequence of requests whose command / argument split differs while
+	// the typed line is the same ("show" + "ip route", "show ip" + "route", "show ip route"), mixed with a session
+	// request; every answer must be the one the policy gives to that request alone
+	var hReqs [][]string
+	for _, cmd := range []string{"show", "show ip", "show ip route", "configure", "configure terminal"} {
+		for _, al := range [][]string{{}, {"ip", "route"}, {"route"}, {"ip route"}, {"terminal"}} {
+			rq := []string{"service=shell", "cmd=" + cmd}
+			for _, a := range al {
+				rq = append(rq, "cmd-arg="+a)
+			}
+			hReqs = append(hReqs, rq)
+		}
+	}
+	hReqs = append(hReqs, []string{"service=shell", "cmd="})
+	var hRules, hRed []ref.Rule
+	for _, n := range []string{"show", "show ip", "configure", "*"} {
+		for _, a := range []int{2, 1} {
+			for i, m := range [][]string{nil, {"ip route"}, {"route"}, {".*"}, {"terminal"}} {
+				r := ref.Rule{Name: n, Action: a, Match: m}
+				hRules = append(hRules, r)
+				if i < 3 && n != "configure" {
+					hRed = append(hRed, r)
+				}
+			}
+		}
+	}
+	histories := func(pol c11Case, depth int) {
+		var rec func(prior [][]string)
+		rec = func(prior [][]string) {
+			for _, rq := range hReqs {
+				if len(prior)+1 == depth {
+					cs := pol
+					cs.Prior, cs.Args, cs.Scope = prior, rq, "s1"
+					run(cs)
+					continue
+				}
+				rec(append(append([][]string{}, prior...), rq))
+			}
+		}
+		rec(nil)
+	}
+	svcShell := []ref.Svc{{Name: "shell", Set: []ref.Val{{Name: "a", Values: []string{"1"}}}}}
+	for _, r1 := range hRules {
+		job++
+		if !c.Mine(job) {
+			continue
+		}
+		histories(c11Case{UserRules: []ref.Rule{r1}}, 2)
+		histories(c11Case{GroupRules: [][]ref.Rule{{r1}}, UserSvcs: svcShell}, 2)
+		if !c.Quick {
+			histories(c11Case{UserRules: []ref.Rule{r1}, UserSvcs: svcShell}, 3)
+		}
+		pairs := hRed
+		if !c.Quick {
+			pairs = hRules
+		}
+		for _, r2 := range pairs {
+			histories(c11Case{UserRules: []ref.Rule{r1, r2}}, 2)
+			histories(c11Case{UserRules: []ref.Rule{r1}, GroupRules: [][]ref.Rule{{r2}}}, 2)
+		}
+		if c.Expired() {
+			return
 		}
 	}
 	// session path
